@@ -1,2 +1,78 @@
--- driver stub for C20: replaced by the real line-protocol driver
-def main : IO Unit := pure ()
+import Bermuda.Model.Json
+import Bermuda.Model.Plot
+import Bermuda.Generated.PlotMetrics
+import Bermuda.Spec.C20
+open Lean Bermuda Bermuda.Plot
+
+/-!
+Driver of C20. One request per line:
+  {"cells": [...], "impl": [record…] | null, "tol": "n/d"}
+Record   {"ps","pe","ev","lag":"n/d","fields":[…],"m":[[name,{"fc":bool,"s":[[stat,["e"|"r","n/d"]]…]}]…]}
+Answer   {"model": [record…], "spec": {clause: bool…} | null, "specModel": bool}
+-/
+
+def SVal.toJson : SVal → Json
+  | .exact q => Json.arr #["e", ratToJson q]
+  | .sqrt q => Json.arr #["r", ratToJson q]
+
+def SVal.fromJson (j : Json) : Except String SVal := do
+  let a ← j.getArr?
+  if a.size != 2 then throw "sval: want pair"
+  match (← a[0]!.getStr?) with
+  | "e" => return .exact (← ratFromJson a[1]!)
+  | "r" => return .sqrt (← ratFromJson a[1]!)
+  | t => throw s!"sval: bad tag {t}"
+
+def pairsToJson {α} (f : α → Json) (l : List (String × α)) : Json :=
+  Json.arr (l.map fun p => Json.arr #[Json.str p.1, f p.2]).toArray
+
+def pairsFromJson {α} (f : Json → Except String α) (j : Json) : Except String (List (String × α)) := do
+  (← j.getArr?).toList.mapM fun e => do
+    let a ← e.getArr?
+    if a.size != 2 then throw "pairs: want pairs"
+    return (← a[0]!.getStr?, ← f a[1]!)
+
+def Summary.toJson (s : Summary) : Json :=
+  Json.mkObj [("fc", Json.bool s.isForecast), ("s", pairsToJson SVal.toJson s.stats)]
+
+def Summary.fromJson (j : Json) : Except String Summary := do
+  return { isForecast := ← (← j.getObjVal? "fc").getBool?,
+           stats := ← pairsFromJson SVal.fromJson (← j.getObjVal? "s") }
+
+def Record.toJson (r : Record) : Json :=
+  Json.mkObj [("ps", r.ps.toJson), ("pe", r.pe.toJson), ("ev", r.ev.toJson),
+    ("lag", ratToJson r.devLag), ("fields", Json.arr (r.fields.map Json.str).toArray),
+    ("m", pairsToJson Summary.toJson r.metrics)]
+
+def Record.fromJson (j : Json) : Except String Record := do
+  return { ps := ← Date.fromJson (← j.getObjVal? "ps"), pe := ← Date.fromJson (← j.getObjVal? "pe"),
+           ev := ← Date.fromJson (← j.getObjVal? "ev"), devLag := ← ratFromJson (← j.getObjVal? "lag"),
+           fields := ← (← (← j.getObjVal? "fields").getArr?).toList.mapM (·.getStr?),
+           metrics := ← pairsFromJson Summary.fromJson (← j.getObjVal? "m") }
+
+def specJson (tol : Rat) (t : List Cell) (recs : List Record) : Json :=
+  Json.mkObj [
+    ("one_record_per_cell_in_order", Spec.C20.onePerCell tol t recs),
+    ("loss_ratio_value", Spec.C20.valuesOk tol Spec.C20.Kind.isRatio t recs),
+    ("passthrough_value", Spec.C20.valuesOk tol Spec.C20.Kind.isPass t recs),
+    ("ata_neighbours_same_slice", Spec.C20.valuesOk tol Spec.C20.Kind.isAta t recs),
+    ("absent_input_no_summary", Spec.C20.absentOk t recs),
+    ("summary_monotone", Spec.C20.monotoneOk tol recs)]
+
+def handle (j : Json) : Except String Json := do
+  let cells ← cellsFromJson (← j.getObjVal? "cells")
+  let tol ← match j.getObjVal? "tol" with
+    | .ok v => ratFromJson v
+    | .error _ => pure 0
+  let model := buildPlotData Generated.PlotMetrics.metrics cells
+  let spec ← match j.getObjVal? "impl" with
+    | .ok v =>
+      if v.isNull then pure Json.null
+      else do
+        let recs ← (← v.getArr?).toList.mapM Record.fromJson
+        pure (specJson tol cells recs)
+    | .error _ => pure Json.null
+  return Json.mkObj [("model", Json.arr (model.map Record.toJson).toArray), ("spec", spec),
+                     ("specModel", Json.bool (Spec.C20.holds 0 cells model))]
+
+def main : IO Unit := serve handle
